@@ -131,3 +131,11 @@ Proof. exact bulk_y0_perm. Qed.
 Example C08_bulk_nonvacuous :
   Permutation [([snap_ex], id9); (([] : @history NumR), ([] : list R))] [(([] : @history NumR), ([] : list R)); ([snap_ex], id9)].
 Proof. exact bulk_perm_nonvacuous_proof. Qed.
+
+(* any number of update_all calls on an assemblage (bulk_run = fold_left over the calls; ys = the vectors the K integrators
+   of one call end with): mineral i ends with the history it would have had ALONE, updated with its own vectors *)
+Theorem C08_bulk_histories_independent : forall n chi (yss : list (list (list R))) (hs : list (@history NumR)) i
+    (d : @history NumR) (dy : list R),
+  Forall (fun ys => length ys = length hs) yss -> (i < length hs)%nat ->
+  nth i (bulk_run n chi hs yss) d = run n chi (nth i hs d) (map (fun ys => Ok (nth i ys dy)) yss).
+Proof. exact bulk_run_each. Qed.
